@@ -3,7 +3,7 @@ decided per run: mon_make (abs successor = Spec.apply, occupancy = unions, disjo
 from checks import chesscore
 from checks.c01 import RULE
 def run(ctx):
-    chesscore.run_property(ctx, 'Props/C02.v', ['C02:'], ['M'],
+    chesscore.run_property(ctx, 'Props/C02.v', ['C02:'], ['AM'],
         'a successor position produced by the engine differs from the rules-defined successor or has inconsistent redundant sets', RULE)
 def replay(ctx, path):
     return chesscore.replay_pos(ctx, path, 'Props/C02.v')
